@@ -21,6 +21,7 @@ pub mod s_determ;
 pub mod s_dialect;
 pub mod s_total;
 pub mod s_arith;
+pub mod s_split;
 
 use common::*;
 use std::io::{BufRead, Write};
@@ -50,6 +51,7 @@ fn streams() -> Vec<(&'static str, GenFn, EvalFn)> {
         ("dialect", s_dialect::gen, s_dialect::eval),
         ("total", s_total::gen, s_total::eval),
         ("arith", s_arith::gen, s_arith::eval),
+        ("split", s_split::gen, s_split::eval),
         ("c09", s_exec::gen_c09, s_exec::eval_c09),
         ("c01", s_exec::gen_c01, s_exec::eval_c01),
         ("clip", s_exec::gen_clip, s_exec::eval_clip),
